@@ -59,6 +59,7 @@ class MTable:
     # columns that depend on an aggregate of a `summarize` without grouping in the current SELECT
     # (None: there is no such summarize); used to classify C08 findings, not to judge
     ung: frozenset | None = None
+    full_join: bool = False  # the pipeline contains a full join (generator-side restriction, see g_union)
 
     def names(self):
         return [n for n, _ in self.visible]
@@ -266,6 +267,7 @@ class Model:
             n_limit=0,
             n_summarize=0,
             ung=None,
+            full_join=l.full_join or r.full_join or how == "full",
         )
         m.origins = l.origins | r.origins | {new_id}
         m.verbs = l.verbs + ("join",)
@@ -285,6 +287,7 @@ class Model:
             n_limit=0,
             n_summarize=0,
             ung=None,
+            full_join=l.full_join or r.full_join,
         )
         m.origins = l.origins | r.origins | {new_id}
         return m
